@@ -12,7 +12,8 @@ VARIABLE doc
 Names == { <<105,110,112,117,116>>, <<98,117,116,116,111,110>>, <<115,101,108,101,99,116>>, <<111,112,116,105,111,110>>,
            <<116,101,120,116,97,114,101,97>>, <<102,111,114,109>>, <<102,105,101,108,100,115,101,116>>,
            <<112,114,111,103,114,101,115,115>>, <<97>>, <<112>>, <<105,102,114,97,109,101>>, <<109,101,116,97>>,
-           <<99,117,115,116,111,109,45,120>> }
+           <<99,117,115,116,111,109,45,120>>, <<108,101,103,101,110,100>>, <<111,112,116,103,114,111,117,112>>,
+           <<100,105,118>>, <<98,100,105>> }
 \* attribute names read by pseudo-classes
 PsAttrs == { <<116,121,112,101>>, <<109,105,110>>, <<109,97,120>>, <<118,97,108,117,101>>, <<100,105,114>>, <<108,97,110,103>>,
              <<110,97,109,101>>, <<112,108,97,99,101,104,111,108,100,101,114>>, <<99,104,101,99,107,101,100>>,
@@ -29,11 +30,18 @@ ValueOf(nm) ==   \* a valid-looking value per attribute
       [] nm = <<108,97,110,103>> -> <<101,110>>
       [] nm = <<104,116,116,112,45,101,113,117,105,118>> -> <<99,111,110,116,101,110,116,45,108,97,110,103,117,97,103,101>>
       [] OTHER -> <<120>>
+Nines == <<57,57,57,57,57,57,57,57,57,57,57,57,57,57,57,57,57,57,57,57>>
+Big == <<51,48,48,48,48,48,48,48,48,48>>                       \* 3000000000 > 2^31
+RangeVals == { Nines \o <<45,87,48,49>>, Nines \o <<45,48,49,45,48,49>>, Nines \o <<45,48,49>>,
+               Nines \o <<45,48,49,45,48,49,84,48,48,58,48,48>>, Big \o <<45,87,48,49>>, Big \o <<45,49,50,45,51,49>>,
+               <<48,48,48,48,45,87,48,49>>, <<50,48,50,48,45,87,53,51>>, <<50,51,58,53,57>>, <<45,46,53>>, <<49,101,57,57,57>> }
 Shapes(nm) == { [v |-> <<>>, list |-> FALSE, odd |-> ""], [v |-> Junk, list |-> FALSE, odd |-> ""],
                 [v |-> ValueOf(nm), list |-> FALSE, odd |-> ""], [v |-> Long, list |-> FALSE, odd |-> ""] }
+              \cup (IF nm \in {<<109,105,110>>, <<109,97,120>>, <<118,97,108,117,101>>}
+                    THEN {[v |-> rv, list |-> FALSE, odd |-> ""] : rv \in RangeVals} ELSE {})
               \cup (IF nm \in PlainAttrs
                     THEN { [v |-> <<120,32,121>>, list |-> TRUE, odd |-> ""] }
-                         \cup {[v |-> <<>>, list |-> FALSE, odd |-> o] : o \in {"none", "int", "float", "bytes", "nested", "intlist", "bool", "tuple"}}
+                         \cup {[v |-> <<>>, list |-> FALSE, odd |-> o] : o \in {"none", "int", "float", "bytes", "badbytes", "nested", "intlist", "bool", "tuple"}}
                     ELSE {})
 At(nm, sh) == [k |-> nm, ns |-> <<>>, local |-> nm, v |-> sh.v, list |-> sh.list, odd |-> sh.odd]
 TypeVals == { <<119,101,101,107>>, <<100,97,116,101>>, <<109,111,110,116,104>>, <<116,105,109,101>>, <<110,117,109,98,101,114>>,
@@ -61,6 +69,8 @@ Next == /\ doc = <<>>
                  nsu == IF ctx = "xhtml" THEN XHTML ELSE <<>>
                  d1 == AddElemNs(b.d, b.p, nm, nsu, <<>>, at)
                  d2 == AddData(d1, Len(d1.parent), "t", <<120, 32, 1488>>)      \* a text child: x, space, a Hebrew letter
-             IN doc' = AddElemNs(d2, b.p, <<105,110,112,117,116>>, nsu, <<>>, <<>>)   \* a sibling input
+                 me == Len(d1.parent)
+             IN \/ doc' = AddElemNs(d2, b.p, <<105,110,112,117,116>>, nsu, <<>>, <<>>)   \* a sibling input ...
+                \/ doc' = AddElemNs(d2, me, <<105,110,112,117,116>>, nsu, <<>>, <<>>)    \* ... or an input inside the element
 Emit == doc = <<>> \/ PrintT(ToJson([doc |-> doc]))
 =============================================================================
